@@ -8,7 +8,8 @@ own file; (R3) the positioned read returns Ok only with 1 <= len <= requested
 n <= capacity, pread gets (fd of this file, the buffer, the count, the offset) --
 so every poll makes >= 1 byte of progress or fails: no short end, no loop;
 (R4) len / last_modified return fields captured at construction from the given
-metadata, the ETag is a quoted strong tag formatted from (inode, len, mtime secs,
+metadata *unchanged* (each is what one Metadata accessor returned, not a value
+computed from it), the ETag is a quoted strong tag formatted from (inode, len, mtime secs,
 mtime nanos) in lower hex with non-hex separators; no panic site in etag();
 Does not decide: file contents, kernel behaviour, Windows code."""
 import re
